@@ -33,10 +33,33 @@ func (e *AccessorExpr) Evaluate(engine *Engine, input interface{}, args []*State
 	// If it is a slice we need to Evaluate each one.
 	if in.Kind() == reflect.Slice {
 		t := TypeOfSliceElement(input)
-		if t.Kind() == reflect.Ptr {
-			t = t.Elem()
+
+		var returnType reflect.Type
+		switch {
+		case t == nil:
+			// A slice of anything, there is no way to know.
+
+		case t.Kind() == reflect.Interface:
+			// Such as gedcom.Nodes. There is no usable zero value of an
+			// interface to find the method on, but the interface itself
+			// knows what its methods return.
+			method, ok := t.MethodByName(accessor)
+			if ok && method.Type.NumOut() > 0 {
+				returnType = method.Type.Out(0)
+			}
+
+		default:
+			if t.Kind() == reflect.Ptr {
+				t = t.Elem()
+			}
+			returnType = e.getReturnType(accessor, reflect.New(t).Interface())
 		}
-		returnType := e.getReturnType(accessor, reflect.New(t).Interface())
+
+		if returnType == nil {
+			return nil, fmt.Errorf(
+				`%s does not have a method or property named "%s"`,
+				reflect.TypeOf(input), accessor)
+		}
 
 		results := reflect.MakeSlice(reflect.SliceOf(returnType), 0, 0)
 
@@ -46,7 +69,13 @@ func (e *AccessorExpr) Evaluate(engine *Engine, input interface{}, args []*State
 				return nil, err
 			}
 
-			results = reflect.Append(results, reflect.ValueOf(result))
+			value := reflect.ValueOf(result)
+			if !value.IsValid() {
+				// An untyped nil, such as a method that returns a nil Node.
+				value = reflect.Zero(returnType)
+			}
+
+			results = reflect.Append(results, value)
 		}
 
 		return results.Interface(), nil
